@@ -75,8 +75,26 @@ func runC13(c *Ctx) {
 	u1 := filepath.Join(w.Root, "u1")
 	h := NewHist(w, u1)
 	h.paths = []string{"a.bin", "b.bin", "dir/c.bin", "e.dat", "notes.txt"}
+	h.attrPad = t.Bool(1, 3, "long-gitattributes")
 	h.Init()
 	w.ConfigureClone(u1, nil)
+	// fetch filters: fsck skips what lfs.fetchexclude excludes and ignores
+	// lfs.fetchinclude (documented: "avoid only the excluded paths")
+	var skipped pathFilter
+	switch t.Choose(5, "fetch-filter-config") {
+	case 1:
+		w.MustGit(u1, "config", "lfs.fetchinclude", "*.bin")
+	case 2:
+		w.MustGit(u1, "config", "lfs.fetchexclude", "dir")
+		skipped.exc = []string{"dir"}
+	case 3:
+		w.MustGit(u1, "config", "lfs.fetchexclude", "*.dat")
+		skipped.exc = []string{"*.dat"}
+	case 4:
+		w.MustGit(u1, "config", "lfs.fetchinclude", "dir")
+		w.MustGit(u1, "config", "lfs.fetchexclude", "*.dat")
+		skipped.exc = []string{"*.dat"}
+	}
 	g := filepath.Join(u1, ".git")
 	c.Res.Nontrivial = true
 	// history: writes, renames, branches — tracking attributes stay fixed
@@ -202,6 +220,17 @@ func runC13(c *Ctx) {
 	}
 	var oids []string
 	for o, p := range refd {
+		// an object referenced only from excluded paths is outside fsck's scope
+		inScope := false
+		for _, path := range p.Paths {
+			if skipped.allows(path) {
+				inScope = true
+			}
+		}
+		if !inScope {
+			c.Probe("object-only-under-excluded-paths")
+			continue
+		}
 		if p.Size > 0 {
 			oids = append(oids, o)
 		}
